@@ -675,8 +675,8 @@ pub fn defs() -> Vec<CheckDef> {
         CheckDef {
             id: "C03",
             level: "exploration",
-            runs_quick: 1_000_000,
-            runs_thorough: 12_000_000,
+            runs_quick: 2_000_000,
+            runs_thorough: 40_000_000,
             block: 512,
             gen: gen_c03,
             exec: exec_dec_or_cabi,
@@ -688,8 +688,8 @@ pub fn defs() -> Vec<CheckDef> {
         CheckDef {
             id: "C04",
             level: "fault_enumeration",
-            runs_quick: 400_000,
-            runs_thorough: 15_000_000,
+            runs_quick: 3_000_000,
+            runs_thorough: 60_000_000,
             block: 512,
             gen: gen_c04,
             exec: crate::dec::exec,
@@ -701,8 +701,8 @@ pub fn defs() -> Vec<CheckDef> {
         CheckDef {
             id: "C06",
             level: "fault_enumeration",
-            runs_quick: 1_000_000,
-            runs_thorough: 10_000_000,
+            runs_quick: 2_000_000,
+            runs_thorough: 40_000_000,
             block: 512,
             gen: gen_c06,
             exec: exec_dec_or_cabi,
@@ -714,8 +714,8 @@ pub fn defs() -> Vec<CheckDef> {
         CheckDef {
             id: "C07",
             level: "exploration",
-            runs_quick: 150_000,
-            runs_thorough: 1_200_000,
+            runs_quick: 400_000,
+            runs_thorough: 8_000_000,
             block: 128,
             gen: gen_c07,
             exec: crate::dec::exec,
@@ -727,8 +727,8 @@ pub fn defs() -> Vec<CheckDef> {
         CheckDef {
             id: "C08",
             level: "exploration",
-            runs_quick: 900_000,
-            runs_thorough: 9_000_000,
+            runs_quick: 3_000_000,
+            runs_thorough: 60_000_000,
             block: 512,
             gen: gen_c08,
             exec: crate::dec::exec,
